@@ -1,9 +1,9 @@
 ---------------------------- MODULE MC_Integrity ----------------------------
 (* Stage (A) for C10: every configuration x region kind x effect, all detectors run.              *)
-(*   MC_Integrity.cfg                intended coverage map: Sound                                  *)
+(*   MC_Integrity.cfg                intended map = the code since da9094c: Sound                  *)
 (*   MC_Integrity_ascoded.cfg        legacy code (D1, D2): Sound up to the predicted gap; real *)
 (*   MC_Integrity_ascoded_sound.cfg  legacy code (before 48c5310) against plain Sound: refuted      *)
-(*   MC_Integrity_gatehole.cfg       code at 7734a50: Sound up to the offset-table gate gap; real   *)
-(*   MC_Integrity_gatehole_sound.cfg code at 7734a50 against plain Sound: TLC must refute           *)
+(*   MC_Integrity_gatehole.cfg       7734a50 before da9094c: Sound up to the gate gap; gap real   *)
+(*   MC_Integrity_gatehole_sound.cfg 7734a50 before da9094c against plain Sound: must be refuted  *)
 EXTENDS Integrity
 =============================================================================
